@@ -1,4 +1,5 @@
 import LettreVerif.Proofs.Dkim
+import LettreVerif.Proofs.DkimSig
 /-!
 # C13 — DKIM signatures verify under an independent RFC 6376 verifier
 
@@ -13,18 +14,16 @@ CRLF that SMTP DATA framing supplies (C03), that signing adds the signature fiel
 nothing else, and that the relaxed header canonicalization kernel equals RFC 6376 §3.4.2
 field by field on well-formed header blocks (whatever the folding), and that for header maps without
 repeated names the covered fields are exactly the RFC 5.4.2 selection for every `h=` list
-(`signed_fields_input_agrees`).  The rest of the header half — the signature field itself, whose
-folding changes between hashing and emission —,
-
-    theorem header_input_agrees_partial (cfg) (m) (h : cfg.hc = .relaxed) (hu : Unique m.mh …) :
-        headerInput opts cfg ts m = (DkimVerifier.view (sign … m).format).headerInput
-
-(the relaxed canonical form is invariant under the re-folding of the signature field once `b=`
-is filled in; selection with `insert_raw` de-duplication equals the bottom-up selection of
-§5.4.2) is not proved: it is checked by running the reader on the real emitted octets of every
-generated case.  For `cfg.hc = .simple` it is false of the code (known finding
-`simple-header-canon-signature-field-refolded`: the hashed field has `bh=…; b=` on one line,
-the emitted one folds before `b=<signature>`).
+(`signed_fields_input_agrees`), and — `header_input_agrees_relaxed` — that the whole header hash input of the
+signer, signature field included, is what an RFC 6376 verifier computes from the received message: the field the
+signer hashed (tag list with an empty `b=`, lower-case name, folded for a short last word) and the field the
+verifier receives (signature filled in, folded differently) have the same §3.4.2 canonical form once the verifier
+has deleted the value of `b=` (§3.7), whatever lettre's folding did (`sig_field_canon_agrees`).  Hypotheses, all
+decidable and checked by the driver per case: the configuration's strings contain no `;`, the words of the
+signature field's value are printable ASCII and not of the shape `=?…?=`, the signature is base64 text, header
+fields in the shape lettre emits, no repeated names.  For `cfg.hc = .simple` the statement is false of the code
+(known finding `simple-header-canon-signature-field-refolded`: the hashed field has `bh=…; b=` on one line, the
+emitted field is folded before `b=<signature>`).
 -/
 namespace LV.C13
 open LV LV.Dkim LV.Headers
@@ -76,6 +75,32 @@ theorem signed_fields_input_agrees (names : List Bytes) (mail : List HV) (hu : U
     canonHeaders opts .relaxed names mail =
       ((DkimVerifier.select names (mail.map fld)).map DkimVerifier.relaxedField).flatten :=
   Dkim.signed_fields_input_agrees names mail hu hw
+
+/-- **The signature field's own contribution (relaxed).** The verifier takes the DKIM-Signature field it received,
+    deletes the value of `b=` and canonicalizes (RFC 6376 §3.7, §3.4.2); the signer canonicalized the field it had
+    built with an empty `b=`. lettre folds the two differently (the last word is `b=` in one and `b=<signature>` in
+    the other); their canonical forms are equal all the same. -/
+theorem sig_field_canon_agrees (cfg : Cfg) (ts : Nat) (bh sig : Bytes) (hcfg : CfgOk cfg bh)
+    (hplain : ∀ x ∈ HeaderEnc.splitInclusive [] (headerValue cfg ts bh []), HeaderEnc.PlainWord x)
+    (hsig : ∀ c ∈ sig, BodyEnc.b64Char c) :
+    DkimVerifier.relaxedField (DkimVerifier.deleteB (fld (HV.new sigName (headerValue cfg ts bh sig)))) =
+      DkimVerifier.relaxedField (fld (HV.new (lowerName sigName) (headerValue cfg ts bh []))) :=
+  Dkim.sig_field_canon_agrees cfg ts bh sig hcfg hplain hsig
+
+/-- **The header hash input, whole (relaxed).** For every message, `h=` list, time stamp and signature text: what the
+    signer hashes = the canonical forms of the fields an RFC 6376 §5.4.2 reader selects, followed by the canonical
+    form of the received DKIM-Signature field with the value of `b=` deleted and without its final CRLF. -/
+theorem header_input_agrees_relaxed (cfg : Cfg) (ts : Nat) (m : Msg) (sig : Bytes) (hc : cfg.hc = .relaxed)
+    (hu : Unique (m.signable opts cfg.names)) (hw : ∀ h ∈ m.signable opts cfg.names, WFMailField h)
+    (hcfg : CfgOk cfg (bhOf opts cfg m))
+    (hplain : ∀ x ∈ HeaderEnc.splitInclusive [] (headerValue cfg ts (bhOf opts cfg m) []), HeaderEnc.PlainWord x)
+    (hsig : ∀ c ∈ sig, BodyEnc.b64Char c) :
+    headerInput opts cfg ts m =
+      ((DkimVerifier.select cfg.names ((m.signable opts cfg.names).map fld)).map DkimVerifier.relaxedField).flatten ++
+      (DkimVerifier.relaxedField (DkimVerifier.deleteB (fld (HV.new sigName (headerValue cfg ts (bhOf opts cfg m) sig))))).take
+        ((DkimVerifier.relaxedField (DkimVerifier.deleteB
+          (fld (HV.new sigName (headerValue cfg ts (bhOf opts cfg m) sig))))).length - 2) :=
+  Dkim.header_input_agrees_relaxed cfg ts m sig hc hu hw hcfg hplain hsig
 
 /-- Signing touches nothing but the message-level header map… -/
 theorem sign_keeps_body_and_part_headers (sigOf : Bytes → Bytes) (cfg : Cfg) (ts : Nat) (m : Msg) :
